@@ -453,11 +453,12 @@ class iindex(dict):
             if len(self.shape) > 1:
                 mask = numpy.ones(self.shape, dtype=bool)
                 for coords, rowids in self.items():
-                    mask[rowids, coords[1]] = False
-                for col, m in enumerate(mask.T):
+                    mask[(rowids,) + coords[1:]] = False
+                for higher_coords in numpy.ndindex(*self.shape[1:]):
+                    m = mask[(slice(None),) + higher_coords]
                     common_rowids = m.nonzero()[0].astype(self.rowid_dtype)
                     if len(common_rowids):
-                        self[(self.common, col)] = common_rowids
+                        self[(self.common,) + higher_coords] = common_rowids
             else:
                 # We can take a shortcut here
                 common_rowids = self.common_rowids()
